@@ -9,7 +9,7 @@ CONSTANTS
   MaxUniform = 1
   Periods = {100}
   Statuses = {12}
-  MaxOps = 6
+  MaxOps = 5
   MaxFaults = 1
   MaxData = 1
   MaxLate = 0
